@@ -3,9 +3,10 @@ CONSTANTS
   NLanes = 3
   LineSize = 8
   Deviations <- NoDev
+  Window = 2
   LastIsLast = TRUE
   MemSize = 24
   MCOps <- OpsAll
   MCAddrs <- Addrs5
-INVARIANTS TypeOK NoCrash TxnSound RegsCorrect MemCorrect CountersZero CompletesOnce CompletesAfterLast
+INVARIANTS TypeOK WindowRespected OneLast NoCrash TxnSound RegsCorrect MemCorrect CountersZero CompletesOnce CompletesAfterLast
 CHECK_DEADLOCK FALSE
